@@ -37,27 +37,36 @@ def tol(x64, abs_terms, cond=0.0):
     return 5e-4 + 2e-5 * abs_terms + 2.4e-7 * cond
 
 
-def assign_all(b, desc, values, auto):
+def assign_all(b, desc, values, mode):
+    """mode: 'auto' (auto-update on) | 'off' (off, then full update) | 'targeted' (off, then a targeted
+    update of the three totals only)."""
     import jax.numpy as jnp
 
     m = b.model
-    m.auto_update = auto
+    m.auto_update = mode == "auto"
     for it in desc["items"]:
         if it["t"] != "var":
             continue
         v = np.asarray(values[it["name"]], np.float64)
         if it["name"] in b.transformed:
-            b.transformed[it["name"]].value = jnp.asarray(np.log(v), b.ft)
+            b.transformed[it["name"]].value = jnp.asarray(sm.to_unconstrained(sm.bij_kind(it), v), b.ft)
         else:
             b.objs[it["name"]].value = jnp.asarray(v, b.ft)
-    if not auto:
+    if mode == "off":
         m.update()
+    elif mode == "targeted":
+        m.update("_model_log_prob", "_model_log_lik", "_model_log_prior")
     m.auto_update = True
 
 
 def judge(res, b, desc, values, x64, what, w):
     o = sm.oracle(desc, values)
     m = b.model
+    if o["min_p"] < (1e-12 if x64 else 1e-5):
+        # a success probability that rounds to 0/1 in the working precision: log p is -inf by rounding of
+        # the *input*; not judged
+        res.skip("saturated Bernoulli probability")
+        return {"log_prob": float(np.sum(m.log_prob)), "log_lik": float(np.sum(m.log_lik)), "log_prior": float(np.sum(m.log_prior))}
     t = tol(x64, o["abs_terms"], o["cond"])
     user = desc["user"]
     raw = {"log_prob": np.asarray(m.log_prob), "log_lik": np.asarray(m.log_lik), "log_prior": np.asarray(m.log_prior)}
@@ -95,6 +104,17 @@ def case_program(case, res):
     desc = sm.gen_model(rng)
     vals0 = sm.initial_values(desc, rng)
     w = {"items": [{k: v for k, v in it.items() if k not in ("extra",)} for it in desc["items"]][:12], "user": desc["user"], "x64": x64}
+    # the default-bijector table used by the oracle must agree with TFP (trusted); otherwise skip
+    import tensorflow_probability.substrates.jax.distributions as tfd
+    for it in desc["items"]:
+        if it.get("transform") == "auto":
+            ex = {"Gamma": tfd.Gamma(1.0, 1.0), "InverseGamma": tfd.InverseGamma(1.0, 1.0), "HalfNormal": tfd.HalfNormal(1.0),
+                  "Exponential": tfd.Exponential(1.0), "LogNormal": tfd.LogNormal(0.0, 1.0)}[it["fam"]]
+            nm = ex.experimental_default_event_space_bijector().name.lower()
+            if sm.DEFAULT_BIJECTOR[it["fam"]] != nm:
+                res.skip("default bijector differs from the oracle's table")
+                res.nontriv(("skip", case["idx"]))
+                return
     b = sm.build(desc, x64=x64, initial=vals0)
     judge(res, b, desc, vals0, x64, "at build", w)
     # flipped per_obs twin
@@ -104,13 +124,15 @@ def case_program(case, res):
     K = case["k"]
     for j in range(K):
         vals = sm.initial_values(desc, rng)
-        auto = bool(j % 2)
-        assign_all(b, desc, vals, auto)
-        g1 = judge(res, b, desc, vals, x64, f"after assignment #{j} (auto_update={auto})", w)
-        assign_all(b2, desc, vals, not auto)
+        mode = ["auto", "off", "targeted"][j % 3]
+        assign_all(b, desc, vals, mode)
+        g1 = judge(res, b, desc, vals, x64, f"after assignment #{j} (update mode {mode})", w)
+        assign_all(b2, desc, vals, ["off", "targeted", "auto"][j % 3])
         g2 = {"log_prob": float(np.sum(b2.model.log_prob)), "log_lik": float(np.sum(b2.model.log_lik)),
               "log_prior": float(np.sum(b2.model.log_prior))}
         o = sm.oracle(desc, vals)
+        if o["min_p"] < (1e-12 if x64 else 1e-5):
+            continue
         res.mon("per_obs_invariance")
         for k in g1:
             if abs(g1[k] - g2[k]) > tol(x64, o["abs_terms"], o["cond"]):
